@@ -46,6 +46,18 @@ CLAIMED = {
     design_ref="DESIGN.md section 5 C07",
     note="Trusted: TLC, recording driver. Index kinds: skip list, B-tree; restart agreement is exercised by the C09/C10 batteries.",
     technique="TLA+ contract spec as oracle; TLC trace validation of index-vs-heap probe batteries"),
+ "C09": dict(
+    category="model_checking",
+    text="SqlModel is the oracle (a clean Shutdown+Reopen is a stutter). File-backed databases at pool sizes 16/32/128 frames: DDL through SQL and the catalog API (skip-list, B-tree, unindexed columns), DML, then 1-3 Shutdown()/reopen cycles interleaved with more work; after every reopen the full probe battery (heap scan, every index by point lookup of every rank and by ordered range scans through the index API, SQL through the planner with stale and refreshed statistics); TLC validates every recorded answer.",
+    design_ref="DESIGN.md section 5 C09",
+    note="Trusted: TLC, recording driver. Serial histories; B-tree with short keys; hash / unique skip list not exercised.",
+    technique="TLA+ contract spec as oracle; TLC trace validation of recorded shutdown/reopen histories"),
+ "C10": dict(
+    category="model_checking",
+    text="SqlModel is the oracle. Histories with 1-4 tables of 1-4 columns (all types, skip-list / B-tree / unindexed), DML, clean and crash-style stops with reopen, and CREATE TABLE after restarts; after every restart and every later CREATE each table is read by name (full scan + a predicate query) and TLC compares with the model, so a table that became unreachable, took another table's identifier or storage, or lost rows is reported.",
+    design_ref="DESIGN.md section 5 C10",
+    note="Trusted: TLC, recording driver. Crash-style stop = files closed without flushing, between statements. One open known finding (B-tree re-attach after a crash restart followed by a clean restart).",
+    technique="TLA+ contract spec as oracle; TLC trace validation of recorded multi-table restart histories"),
 }
 
 NOT_APPLICABLE = {
